@@ -378,6 +378,9 @@ func (f *FileInfo) ExportOptions(tx *Transaction) option.ExportOptions {
 	ops.EncloseAll = f.EncloseAll
 	ops.JsonEscape = f.JsonEscape
 	ops.PrettyPrint = f.PrettyPrint
+	// A table file is data: colors are for results shown on a terminal. Escape sequences in a pretty-printed
+	// JSON table would make the file unreadable.
+	ops.Color = false
 	return ops
 }
 
